@@ -4,7 +4,7 @@
    the primitives [InteractiveSrcDefs.iacts] lists — for every event list, every number of
    completion patterns and every pattern of matches (C12).  InteractiveSrcModel.v shows the model's
    interactive_loop invokes the same. *)
-From Scrapli Require Import Bytes Regex PlatformTypes Generated Channel DecideLang GeneratedSkel DecideLoops InteractiveSrcDefs.
+From Scrapli Require Import Bytes Regex PlatformTypes Generated Channel DecideLang GeneratedSkel DecideLemmas InteractiveSrcDefs.
 From Coq Require Import String List Bool Arith Lia.
 Import ListNotations.
 Open Scope nat_scope.
